@@ -438,7 +438,7 @@ def stoch_obj(draw, left_sym, right_sym, avoid=frozenset(), chem="any", arche=No
     """
     did = draw(st.sampled_from([None, None, None, 1, 2, 12]))
     sym_family = "$" if "$" in (left_sym, right_sym) else ("<>" if (left_sym or right_sym) else draw(st.sampled_from(["<>", "<>", "$"])))
-    arche = arche or draw(st.sampled_from(["homo", "copoly", "copoly", "aabb", "branch", "graft", "homo", "twoid"] +
+    arche = arche or draw(st.sampled_from(["homo", "copoly", "copoly", "aabb", "branch", "graft", "homo", "twoid", "endonly"] +
                                           (["mixed_order"] if (left_sym and left_sym != "$" and "multi_bond_bd" not in avoid) else [])))
     if sym_family == "$" and arche == "aabb":
         arche = "copoly"
@@ -475,6 +475,14 @@ def stoch_obj(draw, left_sym, right_sym, avoid=frozenset(), chem="any", arche=No
         id2 = (did or 0) + 5
         units.append([mk(head), BD(tail, id2, None, 1)])
         units.append([BD(head, id2, None, 1), mk(tail)])
+    elif arche == "endonly":
+        # a grafting site with an id of its own that no repeat unit answers: only end groups can bond it, so it must carry a
+        # transition list onto those end groups (set below, once the end groups exist)
+        sid = (did or 0) + 3
+        endonly_bd = BD(draw(st.sampled_from(["<", ">"])), sid, None, 1)  # directed: not even another copy of the unit answers it
+        units.append([mk(head), mk(tail), endonly_bd])
+        if draw(st.booleans()):
+            units.append([mk(head), mk(tail)])
     elif arche == "graft":
         sid = (did or 0) + 1
         units.append([mk(head), mk(tail), BD("$", sid, draw(st.sampled_from([None, 0.5, 2.0])), 1)])
@@ -529,7 +537,14 @@ def stoch_obj(draw, left_sym, right_sym, avoid=frozenset(), chem="any", arche=No
         d = draw(dists(scale=sc, families=families, small=small))
     ws = (draw(st.sampled_from(["", " "])), draw(st.sampled_from(["", " "])), draw(st.sampled_from(["", " "])), draw(st.sampled_from(["", " "])))
     sto = Stoch(left, right, rep, ends, d, ws)
+    if arche == "endonly":
+        allb = sto.bds
+        nrep = len(sto.repeat_bds)
+        lst = [float(draw(st.integers(1, 5))) if (i >= nrep and endonly_bd.compatible(b)) else 0.0 for i, b in enumerate(allb)]
+        endonly_bd.weight = tuple(lst)
     use_lists = lists if lists is not None else draw(st.integers(0, 3)) == 0
+    if arche == "endonly":
+        use_lists = False
     if use_lists:
         te = (right_sym == "" and draw(st.integers(0, 2)) == 0) if to_end is None else (to_end and right_sym == "")
         _add_lists(draw, sto, left_sym if arche != "mixed_order" else "", to_end=te)
